@@ -10,7 +10,9 @@ from .engine import SV, Exc, Raise, Unsupported, State, BoundMethod
 
 
 class LoopSpec:
-    def __init__(self, invariant=None, frame=None, decreases=None, lists=True, note=""):
+    def __init__(self, invariant=None, frame=None, decreases=None, lists=True, note="", ghost=(), single_iteration=None):
+        self.ghost = tuple(ghost)  # ghost variables (z3 terms in st.ghost) the loop may change
+        self.single_iteration = single_iteration  # text: obligation that the back edge is unreachable
         self.invariant = invariant  # callable(LoopCtx) -> z3 Bool (or list of (name, Bool))
         self.frame = frame  # heap fields the loop may modify (None => syntactic stores)
         self.decreases = decreases  # callable(LoopCtx) -> z3 Int
@@ -24,10 +26,31 @@ class SymIter:
     ``wrap`` turns an element term into the executor value bound to the target.
     """
 
-    def __init__(self, seq, wrap=None, label="iter"):
+    def __init__(self, seq, wrap=None, label="iter", length=None, item=None):
         self.seq = seq
         self.wrap = wrap or (lambda eng, st, t: SV(t))
         self.label = label
+        self._length = length
+        self._item = item
+
+    @property
+    def length(self):
+        return self._length if self._length is not None else z3.Length(self.seq)
+
+    def item(self, eng, st, i):
+        """Executor value of the i-th item (i a z3 Int, 0 <= i < length assumed by the caller)."""
+        if self._item is not None:
+            return self._item(eng, st, i)
+        t = z3.simplify(self.seq[i])
+        st.assume(eng.external_ref_fact(st, t))
+        return self.wrap(eng, st, t)
+
+    @staticmethod
+    def zip(iters):
+        n = iters[0].length
+        for it in iters[1:]:
+            n = z3.If(it.length < n, it.length, n)
+        return SymIter(None, label="zip", length=n, item=lambda eng, st, i: tuple(it.item(eng, st, i) for it in iters))
 
 
 class LoopCtx:
@@ -134,6 +157,12 @@ def _havoc(eng, spec, body_nodes, st: State, fr: int, extra_names=()):
         st.field_array(f)
     if spec.lists:
         st.lists = z3.Const(V.fresh_name("lists"), st.lists.sort())
+    for g in spec.ghost:
+        cur = st.ghost.get(g)
+        if cur is not None and z3.is_expr(cur):
+            st.ghost[g] = z3.Const(V.fresh_name(f"ghost_{g}"), cur.sort())
+        elif isinstance(cur, list):
+            st.ghost[g] = []
     return frame
 
 
@@ -177,6 +206,8 @@ def exec_while(eng, node, st: State, fr: int):
             for st3, ex in eng.exec_block(node.body, st2, fr):
                 if ex is None or ex[0] == "continue":
                     ctx = LoopCtx(eng, st3, fr, entry=entry_ctx)
+                    if spec.single_iteration:
+                        eng.oblige(st3, f"loop@{line}: {spec.single_iteration}", z3.BoolVal(False), "loop-termination", line)
                     _inv_obligations(eng, spec, ctx, st3, "preserved", line)
                     _frame_obligations(eng, st3, head, frame, line, spec.lists)
                     if dec0 is not None:
@@ -245,9 +276,9 @@ def _concrete_items(eng, it, st):
     if isinstance(it, (range, set, frozenset, str)):
         return list(it)
     if isinstance(it, SymIter):
-        n = z3.simplify(z3.Length(it.seq))
+        n = z3.simplify(it.length)
         if z3.is_int_value(n):
-            return [it.wrap(eng, st, z3.simplify(it.seq[i])) for i in range(n.as_long())]
+            return [it.item(eng, st, z3.IntVal(i)) for i in range(n.as_long())]
         return None
     if isinstance(it, SV):
         ok, obj = eng.unlift_const(it.t)
@@ -276,6 +307,14 @@ def _as_symiter(eng, it, st):
         return SymIter(z3.Select(st.lists, V.Val.a(it.t)))
     if isinstance(it, SV) and it.hint in eng.seq_classes:
         return SymIter(V.seq_of(V.Val.a(it.t)))
+    if isinstance(it, SV) and it.hint is not None:
+        m = eng.lookup_method(it.hint, "__iter__")
+        from .engine import Model
+
+        if m is not None:
+            rs = list(eng.call(BoundMethod(it, m), [], {}, st))
+            if len(rs) == 1 and isinstance(rs[0][1], SymIter):
+                return rs[0][1]
     raise Unsupported(f"iteration over {it!r}")
 
 
@@ -301,7 +340,7 @@ def _unroll_for(eng, node, items, k, st, fr):
 
 def _for_invariant(eng, node, sym: SymIter, spec: LoopSpec, st: State, fr: int):
     line = node.lineno
-    n = z3.Length(sym.seq)
+    n = sym.length
     entry = st.copy()
     entry_ctx = LoopCtx(eng, entry, fr, index=z3.IntVal(0), seq=sym.seq)
     _inv_obligations(eng, spec, LoopCtx(eng, st, fr, entry=entry_ctx, index=z3.IntVal(0), seq=sym.seq), st, "holds on entry", line)
@@ -318,7 +357,7 @@ def _for_invariant(eng, node, sym: SymIter, spec: LoopSpec, st: State, fr: int):
             else:
                 yield st2, None
             continue
-        elem = sym.wrap(eng, st2, sym.seq[i])
+        elem = sym.item(eng, st2, i)
         for st3, ex0 in eng.assign(node.target, elem, st2, fr, line):
             if ex0 is not None:
                 yield st3, ex0
